@@ -194,12 +194,22 @@ def _grid(case, lay):
         for nm in names:
             if h.getLayout(nm).size > h.bufferSize:
                 out["bad"].append("bufferSize %d < block size %d of %s" % (h.bufferSize, h.getLayout(nm).size, nm))
-        g = Grid(eta, [None] * nd, h, names[0], comm, dtype=lo.np_dtype(dtype))
+        g = Grid(eta, [None] * nd, h, names[0], comm, dtype=lo.np_dtype(dtype), allocateSaveMemory=True)
         g.getAllData()[:] = lo.expected_block(G, h.getLayout(names[0]))
         r2 = random.Random(pick_seed)
         seq = names[1:] + [r2.choice(names) for _ in range(2)]
+        # history: ... , save in layout X, move to Y, restore (back in X without a setLayout), then go on
+        seq = seq[:1] + ["<save>"] + seq[1:2] + ["<restore>"] + seq[2:]
+        saved_name = None
         for step, nm in enumerate([names[0]] + seq):
-            if step > 0:
+            if nm == "<save>":
+                g.saveGridValues()
+                saved_name = g.currentLayout
+                continue
+            if nm == "<restore>":
+                g.restoreGridValues()
+                nm = saved_name
+            elif step > 0:
                 g.setLayout(nm)
             L = h.getLayout(nm)
             f = g.getAllData()
